@@ -142,12 +142,20 @@ func (o *Opts) strish() any {
 	return o.str()
 }
 
+// typedKeys: names that are typed fields of some step kind; when the adversarial key pool hands one of
+// them out as an "extra" key it gets a value of the field's documented scalar kinds.
+var typedKeys = map[string]bool{"command": true, "commands": true, "name": true, "id": true, "identifier": true, "label": true, "key": true, "group": true}
+
 func (o *Opts) addExtras(m *ordered.MapSA, n int) {
 	r := o.R
 	for i := 0; i < n; i++ {
 		k := o.Key(r)
 		if !m.Contains(k) {
-			m.Set(k, o.Value(2))
+			if typedKeys[k] {
+				m.Set(k, o.strish())
+			} else {
+				m.Set(k, o.Value(2))
+			}
 		}
 	}
 	if o.MaxMapSize > 8 && r.Intn(6) == 0 {
@@ -237,6 +245,17 @@ func (o *Opts) Matrix() any {
 	o.hist("matrix.full")
 	m := ordered.NewMap[string, any](3)
 	dims := []string{}
+	if r.Intn(12) == 0 {
+		// degenerate forms: no setup at all / explicit null setup
+		o.hist("matrix.degenerate")
+		if r.Bool() {
+			m.Set("setup", nil)
+		}
+		if r.Bool() {
+			m.Set("adjustments", []any{ordered.MapFromItems(ordered.TupleSA{Key: "soft_fail", Value: true})})
+		}
+		return m
+	}
 	if r.Intn(3) == 0 {
 		m.Set("setup", o.strList(3)) // anonymous dimension under setup
 		dims = []string{""}
@@ -253,7 +272,12 @@ func (o *Opts) Matrix() any {
 		var adjs []any
 		for i := r.Intn(3); i > 0; i-- {
 			a := ordered.NewMap[string, any](3)
-			if len(dims) == 1 && dims[0] == "" {
+			if r.Intn(10) == 0 {
+				// adjustment without / with a null `with`
+				if r.Bool() {
+					a.Set("with", nil)
+				}
+			} else if len(dims) == 1 && dims[0] == "" {
 				a.Set("with", core.Pick(r, []any{"extra", 5, true}))
 			} else {
 				w := ordered.NewMap[string, any](2)
